@@ -60,3 +60,6 @@ int drive_dbg4(int x) { future<int> src; auto p = src.get_promise(); auto *aw = 
 struct Holder { void *a, *b; async_promise<int> pr; co_awaiter<future<int>> aw; future<int> *f; int v; long idx; };
 int drive_dbg5(int x) { future<int> src; auto p = src.get_promise(); Holder *h = (Holder *)operator new(sizeof(Holder)); h->f = &src; new(&h->aw) co_awaiter<future<int>>(*h->f); bool r = h->aw.await_suspend(std::noop_coroutine()); return r; }
 }
+extern "C" {
+int drive_dbg6(int x) { future<int> src; int r; { auto p = src.get_promise(); promise<int> q(std::move(p)); void *c = q.claim(); r = (c == &src); } return r && src.pending(); }
+}
